@@ -488,7 +488,43 @@ def _hash(x: Any) -> Any:
         return None
 
 
+class StepBudget(BaseException):
+    """A case executed more function calls than any terminating canonicalisation of its size needs."""
+
+
+CALL_BUDGET = 3_000_000
+
+
+def _bounded(fn: Any, *args: Any) -> dict:
+    """Bounded liveness: function calls of this thread are counted (sys.settrace 'call' events only), so a
+    canonicalisation that no longer terminates is reported as a violation instead of hanging the worker."""
+    import sys
+
+    n = [0]
+
+    def count(frame: Any, event: str, arg: Any) -> Any:
+        n[0] += 1
+        if n[0] > CALL_BUDGET:
+            raise StepBudget
+        return None
+
+    sys.settrace(count)
+    try:
+        return fn(*args)
+    except StepBudget:
+        return {"viol": [{"sig": "C11/O1/liveness/step-budget", "oracle": "O1", "site": "liveness", "pred": "step-budget",
+                          "detail": {"calls": n[0]}}], "xd": {}, "xv": {}, "io": "budget",
+                "stats": {"events": 0, "switches": 0, "hot_points": 0, "lock_waits": 0, "aborts": 0, "nontrivial": False,
+                          "interleaving": None}}
+    finally:
+        sys.settrace(None)
+
+
 def run_one_case(case: dict) -> dict:
+    return _bounded(_run_one_case, case)
+
+
+def _run_one_case(case: dict) -> dict:
     """Execute one case in this interpreter. Returns {viol: [...], xd: {...}, xv: {...}, io: ...}."""
     viol: list[dict] = []
     xd: dict[str, Any] = {}
@@ -637,6 +673,10 @@ def gen_inter_case(seed: int, s: int, wid: int) -> dict:
 
 
 def run_inter_case(case: dict, explicit: bool = False) -> dict:
+    return _bounded(_run_inter_case, case, explicit)
+
+
+def _run_inter_case(case: dict, explicit: bool = False) -> dict:
     """Sequential reference pass, then the same tasks with the callers interleaved; results must be identical."""
     from kernel import Sched
 
